@@ -340,6 +340,10 @@ func runC17(w *World, r *Report) {
 		for _, c := range callsTo(gen, unk) {
 			args := c.Common().Args
 			for i, pth := range []string{"Function.Name", "Function.Arguments", "ID"} {
+				if i >= len(args) {
+					r.Fail("C17.call-as-given", fmt.Sprintf("genToolCallTasks: newUnknownToolTask argument %d = toolCall.%s", i, pth), c.Pos(), "newUnknownToolTask is no longer handed the call's "+pth)
+					continue
+				}
 				r.Check(direct(args[i], pth), "C17.call-as-given", fmt.Sprintf("genToolCallTasks: newUnknownToolTask argument %d = toolCall.%s", i, pth), c.Pos(), "direct load of the call's field", "the unknown-tool handler is not given the call's "+pth+" as it stands")
 			}
 		}
